@@ -32,7 +32,8 @@ func init() {
 	// {"k":"parsepos","src":[bytes]} -> Env.Parse of the source: ok | error position; positions reported by the nodes of the tree
 	handlers["parsepos"] = func(raw json.RawMessage) (interface{}, error) {
 		var c struct {
-			Src Bytes `json:"src"`
+			Src    Bytes  `json:"src"`
+			Loader string `json:"loader"`
 		}
 		if err := json.Unmarshal(raw, &c); err != nil {
 			return nil, err
@@ -42,7 +43,12 @@ func init() {
 			srcs[k] = v
 		}
 		rec := &recorder{srcs: srcs, failedAt: -1}
-		env := stick.New(rec)
+		loader, cleanup, lerr := makeLoader(c.Loader, srcs, rec)
+		if lerr != nil {
+			return nil, lerr
+		}
+		defer cleanup()
+		env := stick.New(loader)
 		tree, err := env.Parse("t")
 		obs := map[string]interface{}{"ok": err == nil}
 		if err != nil {
